@@ -5,9 +5,10 @@ real library tree plus the prerequisite flags; a transition rebuilds the tree, c
 transformation and evaluates the step invariants."""
 import collections
 import itertools
+import pickle
 from .. import model, sweep
 from ..runner import Result
-from ..bridge import T, quiet, monitor, canon, all_nodes, raw_leaves, build, CANON_FIELDS, _MISSING
+from ..bridge import T, quiet, monitor, canon, all_nodes, raw_leaves, build, build_any, CANON_FIELDS, _MISSING
 
 from trees import transform
 
@@ -299,6 +300,7 @@ def plan(tier, seed):
         'assumptions': ['driver differential (vt/clipipe.py): four structural pipelines with --params, with and without --split, must write what the named functions give when applied by the harness in the given order',
                         'beyond the bound: BFS (depth %d / %d) also from 8 fixed 5-7-token hierarchies with three blocks or interleaved gaps and from the 11-13-token size probes' % ((3, 2) if tier == 'quick' else (4, 3)),
                         'canonical form is a sound state abstraction (DESIGN.md §3.4)',
+                        'live paths: every state is also reached on LIVE objects along the path by which it was first discovered (no rebuild between steps; initial objects rotate over API-built / reversed child lists / export reader / TIGER-XML reader / written once by the export writer) and the step invariants are evaluated on every live transition - one live transition per state, counted in extra.live_transitions',
                         'head marks count as present only if no restructuring happened since (prerequisite reading)',
                         'raising is enabled after boyd_split until binarize/collapse/uncollapse rebuild nodes (they carry no split marks)',
                         'a tree collapsed to a bare token only admits uncollapse'],
@@ -308,19 +310,62 @@ def plan(tier, seed):
 QUICK_SKIP = ('mark_heads_ptb', 'binarize_bare', 'punctuation_symetrify_relc')
 
 
+LIVE_PROVENANCE = (None, 'rev', 'export', 'tiger', 'written')
+
+
+def live_initial(mt, i):
+    """The live object of an initial state: the same model tree as a user may hold it - built through the API
+    (two child-list orders), delivered by the export or TIGER-XML reader (nodes carry the reader's own
+    bookkeeping keys), or written once by the export writer (constituents numbered)."""
+    prov = LIVE_PROVENANCE[i % len(LIVE_PROVENANCE)]
+    try:
+        t = build_any(mt, prov)
+    except Exception:       # a route that cannot carry this model tree (harness-side limitation)
+        prov, t = None, build(mt)
+    return prov, pickle.dumps(t, pickle.HIGHEST_PROTOCOL)
+
+
+def live_step(blob, op, fname, params, flags, hist, prov, res):
+    """The same transition on the LIVE objects of the path by which the state was first reached (never rebuilt
+    from the canonical form, so whatever earlier steps, a reader or a writer left on the nodes is still there).
+    Only the step invariants of the property are evaluated.  Returns the pickled result or None."""
+    lt = pickle.loads(blob)
+    pre = pre_summary(lt)
+    if not enabled(op, flags, pre['bare']):
+        return None
+    res.add_extra('live_transitions')
+    try:
+        r = getattr(transform, fname)(lt, **params)
+        probs = check_step(pre, op, r)
+    except Exception as e:
+        probs = [('exception', '%s: %s' % (type(e).__name__, e))]
+        r = None
+    if probs:
+        for kind, detail in probs:
+            res.violation(kind, op, {'init': hist[0].to_json(), 'program': list(hist[1:]) + [op], 'live': prov,
+                                     'flags': sorted(flags)},
+                          '%s after program %s applied step by step to the same objects, from %s (provenance %s)'
+                          % (detail, list(hist[1:]) + [op], model.mt_str(hist[0].root, hist[0].toks), prov or 'api'),
+                          '%s on live objects: %s' % (op, kind))
+        return None
+    return pickle.dumps(r, pickle.HIGHEST_PROTOCOL)
+
+
 def explore(inits, depth, res, skip_ops=()):
     seen = set()
     frontier = collections.deque()
-    for mt in inits:
+    for i, mt in enumerate(inits):
         with quiet():
             t = build(mt)
         st = (canon(t), frozenset())
         if st not in seen:
             seen.add(st)
-            frontier.append((st, 0, (mt,)))
+            with quiet():
+                prov, blob = live_initial(mt, i)
+            frontier.append((st, 0, (mt,), prov, blob))
     sample = None
     while frontier:
-        (c, flags), d, hist = frontier.popleft()
+        (c, flags), d, hist, prov, blob = frontier.popleft()
         if d >= depth:
             res.traces += 1
             continue
@@ -354,7 +399,8 @@ def explore(inits, depth, res, skip_ops=()):
             if st not in seen:
                 seen.add(st)
                 new_succ += 1
-                frontier.append((st, d + 1, hist + (op,)))
+                nblob = live_step(blob, op, fname, params, flags, hist, prov, res) if blob is not None else None
+                frontier.append((st, d + 1, hist + (op,), prov, nblob))
                 if d + 1 == depth:
                     sample = {'initial': model.mt_str(hist[0].root, hist[0].toks), 'program': list(hist[1:]) + [op]}
         if not new_succ:
@@ -462,6 +508,27 @@ def check_case(case):
     if 'cli' in case:
         with quiet():
             return check_cli(case['cli'], case['split'])
+    if 'live' in case:
+        with quiet():
+            mt = model.MT.from_json(case['init'])
+            t = build_any(mt, case['live'])
+            flags = frozenset()
+            out = []
+            for op in case['program']:
+                fname, params = OPS[op]
+                pre = pre_summary(t)
+                try:
+                    t = getattr(transform, fname)(t, **params)
+                    probs = check_step(pre, op, t)
+                except Exception as e:
+                    probs = [('exception', '%s: %s' % (type(e).__name__, e))]
+                for kind, detail in probs:
+                    out.append({'kind': kind, 'where': op, 'case': case, 'detail': detail + ' (live objects)',
+                                'what': '%s on live objects: %s' % (op, kind)})
+                if probs:
+                    return out
+                flags = next_flags(op, flags)
+            return out
     with quiet():
         t = uncanon(canon(build(model.MT.from_json(case['init']))))
         flags = frozenset()
